@@ -514,6 +514,25 @@ impl<S: BitmapSlice + Send + Sync> PassthroughFs<S> {
     }
 }
 
+/// verif hook: the private `getdents64` buffer helpers of `do_readdir`, for differential tests.
+#[cfg(fuse_backend_rs_verif)]
+impl<S: BitmapSlice + Send + Sync> PassthroughFs<S> {
+    #[cfg(fuse_backend_rs_verif)]
+    pub fn verif_skip_to_cookie(buf: &mut Vec<u8>, offset: u64) -> bool {
+        Self::skip_to_cookie(buf, offset)
+    }
+
+    #[cfg(fuse_backend_rs_verif)]
+    pub fn verif_last_cookie_in_buf(buf: &[u8]) -> Option<u64> {
+        Self::last_cookie_in_buf(buf)
+    }
+
+    #[cfg(fuse_backend_rs_verif)]
+    pub fn verif_only_dot_entries(buf: &[u8]) -> bool {
+        Self::only_dot_entries(buf)
+    }
+}
+
 impl<S: BitmapSlice + Send + Sync> FileSystem for PassthroughFs<S> {
     type Inode = Inode;
     type Handle = Handle;
